@@ -12,8 +12,8 @@ def law_event(g):
     """g: {tid, law, K, members: [{logic, f, mode, naming, shuf, K (optional override)}], checklaw}"""
     K = g['K']
     members = []
-    for m in g['members']:
-        case = {'tid': 0, 'logic': m['logic'], 'K': m.get('K', K), 'f': T(m['f']), 'mode': m.get('mode', 'obj'),
+    for mi, m in enumerate(g['members']):
+        case = {'tid': g['tid'] * 5 + mi, 'logic': m['logic'], 'K': m.get('K', K), 'f': T(m['f']), 'mode': m.get('mode', 'obj'),
                 'naming': m.get('naming', 'int'), 'shuf': m.get('shuf')}
         ev = mcfam.mc_event(case)
         members.append({'logic': m['logic'], 'f': m['f'], 'mode': m.get('mode', 'obj'),
